@@ -17,6 +17,29 @@ Proof. split; vm_compute; try reflexivity; discriminate. Qed.
 
 Definition ACCEPT_US : Z := CYCLE_US * (MIN_CYCLE_COUNT + 1).
 Lemma accept_us : ACCEPT_US = 120000. Proof. reflexivity. Qed.
+(* keep cbn/simpl from unfolding the constants into binary numerals *)
+Arguments CYCLE_US : simpl never.
+Arguments MIN_CYCLE_COUNT : simpl never.
+Arguments ACCEPT_US : simpl never.
+Arguments SILENT_US : simpl never.
+Arguments HOLD_US : simpl never.
+Arguments MULTICLICK_US : simpl never.
+Arguments CFG_PRESS_US : simpl never.
+Arguments CFG_COUNT_RESET_US : simpl never.
+Arguments MOTION_INIT_US : simpl never.
+Arguments RELAY_D1 : simpl never.
+Arguments RELAY_D2 : simpl never.
+Arguments RELAY_DOUBLE_TRY_US : simpl never.
+Arguments ST_ACTIVE : simpl never.
+Arguments ST_INACTIVE : simpl never.
+Arguments CFG_PRESS_COUNT : simpl never.
+Arguments u32 : simpl never.
+Arguments s8 : simpl never.
+Arguments Z.mul : simpl never.
+Arguments Z.add : simpl never.
+Arguments Z.sub : simpl never.
+Arguments Z.max : simpl never.
+Arguments Z.land : simpl never.
 
 (* ---------- observations on the output list ---------- *)
 (* a "changing" notify: supla_esp_input_notify_state_change called with a state different from last_state *)
@@ -33,7 +56,7 @@ Proof. unfold chg; simpl; destruct (chgb o); reflexivity. Qed.
 Record frame (s s' : st) : Prop := {
   f_lvl : lvl s' = lvl s; f_dstep : dstep s' = dstep s; f_dval : dval s' = dval s; f_don : d_on s' = d_on s;
   f_ddue : d_due s' = d_due s; f_last : last s' = last s; f_chg : chg (outs s') = chg (outs s);
-  f_late : late s' = late s; f_now : now s <= now s' }.
+  f_late : late s' = late s; f_tr : tr s' = tr s; f_now : now s <= now s' }.
 
 Lemma frame_refl s : frame s s.
 Proof. constructor; reflexivity || lia. Qed.
@@ -142,7 +165,6 @@ Lemma fr_mot_cb c s x : frame s x -> frame s (mot_cb c x).
 Proof. intros; unfold mot_cb; fr2. Qed.
 
 (* ---------- the sampler is touched only by the interrupt and by its own timer ---------- *)
-Lemma fr_set_tr : forall s x v, frame s x -> frame s (set_tr v x). Proof. fr_set. Qed.
 
 Lemma mact_frame c m s : is_in m = false -> m <> MDeb -> frame s (mact c m s).
 Proof.
@@ -153,6 +175,7 @@ Proof.
     destruct (t_adv s); [apply fr_adv_timer|apply fr_legacy_timer]; fr.
   - destruct (m_on s && (m_due s <=? now s)); [|apply frame_refl]. apply fr_mot_cb; fr.
   - apply fr_set_triggers; apply frame_refl.
+  - apply fr_emit; [reflexivity|apply frame_refl].
 Qed.
 
 Lemma mstep_proj c m s :
@@ -172,7 +195,7 @@ Proof. intros H; unfold mact; rewrite H; reflexivity. Qed.
 (* notify: only last_state, the silent flag, the machine and the outputs change *)
 Record sframe (s s' : st) : Prop := {
   sf_lvl : lvl s' = lvl s; sf_dstep : dstep s' = dstep s; sf_dval : dval s' = dval s; sf_don : d_on s' = d_on s;
-  sf_ddue : d_due s' = d_due s; sf_late : late s' = late s; sf_now : now s <= now s' }.
+  sf_ddue : d_due s' = d_due s; sf_late : late s' = late s; sf_tr : tr s' = tr s; sf_now : now s <= now s' }.
 Lemma frame_sframe s s' : frame s s' -> sframe s s'.
 Proof. intros []; constructor; assumption. Qed.
 
@@ -205,7 +228,7 @@ Proof.
       assert (F3 : frame s2 (if negb (act s2 =? 0) then adv_handler c st_ (set_t_adv true s2)
                              else legacy_handler c st_ (set_t_adv false s2))).
       { destruct (negb _); [apply fr_adv_handler|apply fr_legacy_handler]; fr. }
-      destruct F3 as [a1 a2 a3 a4 a5 a6 a7 a9 a8]. destruct F2 as [b1 b2 b3 b4 b5 b7 b6].
+      destruct F3 as [a1 a2 a3 a4 a5 a6 a7 a9 a10 a8]. destruct F2 as [b1 b2 b3 b4 b5 b7 b8 b6].
       split; [|split].
       * constructor; try congruence; lia.
       * congruence.
@@ -221,7 +244,7 @@ Record WF (c : cfgT) (s : st) : Prop := {
 
 Lemma WF_frame c s s' : frame s s' -> WF c s -> WF c s'.
 Proof.
-  intros [a1 a2 a3 a4 a5 a6 a7 a9 a8] [w1 w2 w3 w4]. constructor.
+  intros [a1 a2 a3 a4 a5 a6 a7 a9 a10 a8] [w1 w2 w3 w4]. constructor.
   - rewrite a2; exact w1.
   - rewrite a4, a2; exact w2.
   - rewrite a2, a6, a1; exact w3.
@@ -283,7 +306,7 @@ Proof.
     destruct x; cbn in *; constructor; cbn; wfin.
   - destruct (caseB (rearm_d s)) eqn:EB.
     + rewrite deb_cb_B in * by assumption. cbv zeta in *.
-      destruct (notify_spec c (stl c (lvl (rearm_d s))) (rearm_d s)) as ([n1 n2 n3 n4 n5 n7 n6] & nl & _).
+      destruct (notify_spec c (stl c (lvl (rearm_d s))) (rearm_d s)) as ([n1 n2 n3 n4 n5 n7 n8 n6] & nl & _).
       set (y := notify c _ _) in *. destruct (halted y) eqn:Hy; [congruence|].
       destruct y; cbn in *; constructor; cbn; wfin.
     + rewrite deb_cb_C by assumption. unfold caseB in EB. rewrite EA in EB. cbn in EB. apply Z.ltb_ge in EB.
@@ -321,7 +344,7 @@ Proof.
     destruct x; cbn in *. repeat split; congruence.
   - destruct (caseB (rearm_d s)) eqn:EB.
     + right; left. rewrite deb_cb_B by assumption. cbv zeta.
-      destruct (notify_spec c (stl c (lvl (rearm_d s))) (rearm_d s)) as ([n1 n2 n3 n4 n5 n7 n6] & nl & nc).
+      destruct (notify_spec c (stl c (lvl (rearm_d s))) (rearm_d s)) as ([n1 n2 n3 n4 n5 n7 n8 n6] & nl & nc).
       set (y := notify c _ _) in *. rewrite r3, r7, r8 in *.
       destruct (halted y) eqn:Hy.
       * repeat split; try congruence; try lia; intros; discriminate.
@@ -378,6 +401,7 @@ Proof. rewrite late_mstep, pend_mstep. lia. Qed.
 Definition rem (L : Z) (s : st) : Z :=
   if dstep s =? 0 then 0 else if dstep s =? 1 then 6 else if dval s =? L then 7 - dstep s else 6.
 
+Definition once (a t : Z) : nat := if a =? t then 0%nat else 1%nat.
 Definition bump (a b t : Z) : nat := if (a =? t) && negb (b =? t) then 1%nat else 0%nat.
 
 Record Q (c : cfgT) (q L l0 : Z) (n0 : nat) (s : st) : Prop := {
@@ -404,7 +428,7 @@ Lemma Q_mact c q L l0 n0 m s :
 Proof.
   intros HQ Ei Hs Hh.
   destruct (micro_eq_deb m) as [->|Hd].
-  2:{ destruct (mact_frame c m s Ei Hd) as [a1 a2 a3 a4 a5 a6 a7 a9 a8]. eapply Q_ext; eauto. }
+  2:{ destruct (mact_frame c m s Ei Hd) as [a1 a2 a3 a4 a5 a6 a7 a9 a10 a8]. eapply Q_ext; eauto. }
   destruct (d_on s && (d_due s <=? now s)) eqn:Ep.
   2:{ rewrite mact_deb by assumption. rewrite Ep. exact HQ. }
   apply andb_prop in Ep as [Ep1 Ep2]. apply Z.leb_le in Ep2.
@@ -471,3 +495,420 @@ Proof.
   exfalso. clear - E Hh. revert Hh. generalize (mstep c m s) E. clear. induction ms as [|m' ms IH]; intros x E Hh; cbn in *; [congruence|].
   apply (IH (mstep c m' x)); [apply halted_sticky; exact E|exact Hh].
 Qed.
+
+(* ---------- reachable states ---------- *)
+Lemma WF_ext c a b :
+  lvl b = lvl a -> dstep b = dstep a -> d_on b = d_on a -> d_due b = d_due a -> last b = last a -> now a <= now b ->
+  WF c a -> WF c b.
+Proof.
+  intros e1 e2 e4 e5 e6 e8 [w1 w2 w3 w4]. constructor; rewrite ?e1, ?e2, ?e4, ?e5, ?e6; try assumption.
+  intros H; specialize (w4 H); lia.
+Qed.
+Lemma WF_mstep c m s : WF c s -> halted (mstep c m s) = false -> WF c (mstep c m s).
+Proof.
+  intros W Hh. destruct (mstep_proj c m s) as (e1&e2&e3&e4&e5&e6&e7&e8&e9). cbv zeta in *. rewrite e9 in Hh.
+  eapply WF_ext; try eassumption; try lia. apply WF_mact; assumption.
+Qed.
+Lemma mrun_halted_back c ms : forall s, halted (mrun c ms s) = false -> halted s = false.
+Proof.
+  induction ms as [|m ms IH]; intros s H; [exact H|]. rewrite mrun_cons in H. apply IH in H.
+  destruct (halted s) eqn:E; [|reflexivity]. rewrite halted_sticky in H by assumption. discriminate.
+Qed.
+Lemma WF_mrun c ms : forall s, WF c s -> halted (mrun c ms s) = false -> WF c (mrun c ms s).
+Proof.
+  induction ms as [|m ms IH]; intros s W H; [exact W|]. rewrite mrun_cons in *. apply IH; [|exact H].
+  apply WF_mstep; [exact W|]. eapply mrun_halted_back; exact H.
+Qed.
+Lemma WF_init c l0 : WF c (init c l0).
+Proof. pose proof CF as [Cy Mi _ _ _ _ _]. unfold init. constructor; cbn; wfin. Qed.
+
+Lemma pend_d_on s : d_on s = true -> now s - d_due s <= pend s.
+Proof. intros H. unfold pend. rewrite H. lia. Qed.
+Lemma mrun_pend c ms s : ms <> [] -> pend (mrun c ms s) <= late (mrun c ms s).
+Proof.
+  intros H. destruct (exists_last H) as (ms' & m & ->). rewrite mrun_app. cbn. apply mstep_pend.
+Qed.
+
+Lemma Q_start c s : WF c s -> Q c (now s) (lvl s) (last s) (chg (outs s)) s.
+Proof.
+  intros W. pose proof CF as [Cy Mi _ _ _ _ _]. destruct W as [w1 w2 w3 w4]. constructor.
+  - constructor; assumption.
+  - reflexivity.
+  - intros Dn. assert (Don : d_on s = true) by (apply w2; exact Dn). specialize (w4 Don).
+    unfold rem. rewrite accept_us, Cy in *.
+    destruct (dstep s =? 0) eqn:E0; [apply Z.eqb_eq in E0; lia|]. apply Z.eqb_neq in E0.
+    destruct (dstep s =? 1); [lia|]. destruct (dval s =? lvl s); lia.
+  - left; reflexivity.
+  - unfold bump. destruct (last s =? stl c (lvl s)); cbn; lia.
+Qed.
+
+(* a level that stays: after more than ACCEPT_US + J the sampler has stopped, the level is the recognised
+   state, and exactly the one notify that was needed has changed last_state *)
+Lemma quiet_settles c J s ms :
+  0 <= J -> WF c s -> no_in ms -> late (mrun c ms s) <= J -> now (mrun c ms s) - now s > ACCEPT_US + J ->
+  halted (mrun c ms s) = false ->
+  dstep (mrun c ms s) = 0 /\ last (mrun c ms s) = stl c (lvl s) /\ lvl (mrun c ms s) = lvl s /\
+  chg (outs (mrun c ms s)) = (chg (outs s) + once (last s) (stl c (lvl s)))%nat.
+Proof.
+  intros HJ W Hn Hl Hd Hh. pose proof CF as [Cy Mi _ _ _ _ _]. pose proof accept_us as Ha.
+  pose proof (Q_mrun c _ _ _ _ ms s (Q_start c s W) Hn Hh) as [[w1 w2 w3 w4] q2 q3 q4 q5].
+  set (s' := mrun c ms s) in *.
+  assert (D0 : dstep s' = 0).
+  { destruct (Z.eq_dec (dstep s') 0) as [|Dn]; [assumption|exfalso].
+    specialize (q3 Dn). assert (Don : d_on s' = true) by (apply w2; exact Dn).
+    assert (Hne : ms <> []) by (intros ->; unfold s' in Hd; change (mrun c [] s) with s in Hd; lia).
+    pose proof (mrun_pend c ms s Hne). pose proof (pend_d_on s' Don). fold s' in H.
+    assert (1 <= rem (lvl s) s').
+    { unfold rem. destruct (dstep s' =? 0) eqn:E0; [apply Z.eqb_eq in E0; lia|].
+      destruct (dstep s' =? 1); [lia|]. destruct (dval s' =? lvl s); lia. }
+    rewrite Cy in q3. nia. }
+  split; [exact D0|]. split; [rewrite (w3 D0), q2; reflexivity|]. split; [exact q2|].
+  rewrite q5. f_equal. unfold bump, once. rewrite (w3 D0), q2, Z.eqb_refl. cbn [andb].
+  destruct (last s =? stl c (lvl s)); reflexivity.
+Qed.
+
+(* ---------- C11_accept_once ---------- *)
+Lemma mstep_in_fields c v s : halted s = false ->
+  let s1 := mstep c (MIn v) s in
+  lvl s1 = v /\ last s1 = last s /\ outs s1 = outs s /\ halted s1 = false /\ now s1 = now s.
+Proof.
+  intros Hs. cbv zeta. destruct (mstep_proj c (MIn v) s) as (e1&e2&e3&e4&e5&e6&e7&e8&e9). cbv zeta in *.
+  rewrite e1, e6, e7, e8, e9. unfold mact. rewrite Hs.
+  destruct (v =? lvl s) eqn:E; [apply Z.eqb_eq in E; repeat split; congruence|].
+  unfold isr, arm_d. repeat match goal with |- context[if ?b then _ else _] => destruct b end; destruct s; cbn in *; repeat split; congruence.
+Qed.
+
+Theorem accept_once_thm : forall c l0 J pre v qw,
+  let s0 := mrun c pre (init c l0) in
+  let s1 := mstep c (MIn v) s0 in
+  let s2 := mrun c qw s1 in
+  0 <= J -> no_in qw -> late s2 <= J -> now s2 - now s1 > ACCEPT_US + J -> halted s2 = false ->
+  last s2 = stl c v /\ dstep s2 = 0 /\ lvl s2 = v /\
+  chg (outs s2) = (chg (outs s0) + once (last s0) (stl c v))%nat.
+Proof.
+  intros c l0 J pre v qw s0 s1 s2 HJ Hn Hl Hd Hh.
+  assert (H1 : halted s1 = false) by (eapply mrun_halted_back; exact Hh).
+  assert (H0 : halted s0 = false).
+  { destruct (halted s0) eqn:E; [|reflexivity]. unfold s1 in H1. rewrite halted_sticky in H1 by assumption. discriminate. }
+  assert (W1 : WF c s1) by (apply WF_mstep; [apply WF_mrun; [apply WF_init|exact H0]|exact H1]).
+  destruct (mstep_in_fields c v s0 H0) as (f1 & f2 & f3 & f4 & f5). fold s1 in f1, f2, f3, f4, f5.
+  destruct (quiet_settles c J s1 qw HJ W1 Hn Hl Hd Hh) as (a1 & a2 & a3 & a4). fold s2 in a1, a2, a3, a4.
+  rewrite f1 in *. rewrite f2, f3 in a4. repeat split; assumption.
+Qed.
+
+(* ---------- while the recognised state equals the level, no notify changes anything ---------- *)
+Lemma NC_mstep c m s : is_in m = false -> last s = stl c (lvl s) ->
+  chg (outs (mstep c m s)) = chg (outs s) /\ last (mstep c m s) = stl c (lvl (mstep c m s)) /\ lvl (mstep c m s) = lvl s.
+Proof.
+  intros Ei HL. destruct (halted s) eqn:Hs.
+  { destruct (mstep_halted_id c m s Hs) as (a1&a2&a3&a4&a5). rewrite a1, a3, a4. auto. }
+  destruct (mstep_proj c m s) as (e1&e2&e3&e4&e5&e6&e7&e8&e9). cbv zeta in *. rewrite e1, e6, e7.
+  destruct (micro_eq_deb m) as [->|Hd].
+  2:{ destruct (mact_frame c m s Ei Hd) as [a1 a2 a3 a4 a5 a6 a7 a9 a10 a8]. rewrite a1, a6, a7. auto. }
+  destruct (d_on s && (d_due s <=? now s)) eqn:Ep.
+  2:{ rewrite mact_deb by assumption. rewrite Ep. auto. }
+  apply andb_prop in Ep as [Ep1 Ep2]. apply Z.leb_le in Ep2.
+  destruct (deb_fields c s Hs Ep1 Ep2) as [H|[H|H]]; cbv zeta in H.
+  - destruct H as (EA & h1 & h2 & h3 & h4 & h5 & h6 & h7 & h8 & h9). rewrite h3, h6, h7. auto.
+  - destruct H as (EA & EB & h3 & h6 & h8 & hc & hd). rewrite h3, h6, hc, HL, Z.eqb_refl. auto.
+  - destruct H as (EA & EB & h1 & h2 & h3 & h4 & h5 & h6 & h7 & h8 & h9). rewrite h3, h6, h7. auto.
+Qed.
+Lemma NC_mrun c ms : forall s, no_in ms -> last s = stl c (lvl s) ->
+  chg (outs (mrun c ms s)) = chg (outs s) /\ last (mrun c ms s) = stl c (lvl (mrun c ms s)) /\ lvl (mrun c ms s) = lvl s.
+Proof.
+  induction ms as [|m ms IH]; intros s Hn HL; [auto|].
+  rewrite mrun_cons. unfold no_in in Hn. cbn in Hn. apply andb_prop in Hn as [Hn1 Hn2]. apply negb_true_iff in Hn1.
+  destruct (NC_mstep c m s Hn1 HL) as (a1 & a2 & a3).
+  destruct (IH (mstep c m s) Hn2 a2) as (b1 & b2 & b3). repeat split; congruence.
+Qed.
+
+(* ---------- a lower bound `a` on the due time of the tick that could notify ---------- *)
+Definition LBI (a : Z) (s : st) : Prop :=
+  dstep s <> 0 -> d_due s + CYCLE_US * (MIN_CYCLE_COUNT + 1 - dstep s) >= a.
+Definition WFh (c : cfgT) (s : st) : Prop := halted s = false -> WF c s.
+
+Lemma WFh_mstep c m s : WFh c s -> WFh c (mstep c m s).
+Proof.
+  intros W H. apply WF_mstep; [|exact H]. apply W.
+  destruct (halted s) eqn:E; [|reflexivity]. rewrite halted_sticky in H by assumption. discriminate.
+Qed.
+
+Lemma LBI_mstep c a m s :
+  WFh c s -> LBI a s -> now s < a -> a <= now s + ACCEPT_US ->
+  LBI a (mstep c m s) /\ chg (outs (mstep c m s)) = chg (outs s) /\ last (mstep c m s) = last s.
+Proof.
+  intros W HL Hnow Ha. destruct (halted s) eqn:Hs.
+  { destruct (mstep_halted_id c m s Hs) as (a1&a2&a3&a4&a5).
+    destruct (mstep_proj c m s) as (e1&e2&e3&e4&e5&e6&e7&e8&e9). cbv zeta in *.
+    rewrite a3, a4. split; [|auto]. unfold LBI in *. rewrite mact_halted in * by assumption. rewrite e2, e5. exact HL. }
+  specialize (W Hs). destruct W as [w1 w2 w3 w4]. pose proof CF as [Cy Mi _ _ _ _ _]. pose proof accept_us as Hacc.
+  destruct (mstep_proj c m s) as (e1&e2&e3&e4&e5&e6&e7&e8&e9). cbv zeta in *.
+  unfold LBI in *. rewrite e2, e5, e6, e7.
+  destruct (is_in m) eqn:Ei.
+  { destruct m; try discriminate. unfold mact. rewrite Hs. destruct (l =? lvl s); [auto|].
+    unfold isr. assert (E0 : dstep (set_lvl l s) = dstep s) by (destruct s; reflexivity). rewrite E0.
+    destruct (dstep s =? 0) eqn:E; [|destruct (rst c)].
+    - apply Z.eqb_eq in E. destruct s; cbn in *. repeat split; try reflexivity. intros _. lia.
+    - apply Z.eqb_neq in E. specialize (HL E). destruct s; cbn in *. repeat split; try reflexivity. intros _. lia.
+    - destruct s; cbn in *. auto. }
+  destruct (micro_eq_deb m) as [->|Hd].
+  2:{ destruct (mact_frame c m s Ei Hd) as [a1 a2 a3 a4 a5 a6 a7 a9 a10 a8]. rewrite a2, a5, a6, a7. auto. }
+  destruct (d_on s && (d_due s <=? now s)) eqn:Ep.
+  2:{ rewrite mact_deb by assumption. rewrite Ep. auto. }
+  apply andb_prop in Ep as [Ep1 Ep2]. apply Z.leb_le in Ep2.
+  assert (Dn : dstep s <> 0) by (apply w2; exact Ep1). specialize (HL Dn).
+  assert (RX : dstep (rearm_d s) = dstep s) by (destruct s; reflexivity).
+  destruct (deb_fields c s Hs Ep1 Ep2) as [H|[H|H]]; cbv zeta in H.
+  - destruct H as (EA & h1 & h2 & h3 & h4 & h5 & h6 & h7 & h8 & h9). rewrite h1, h5, h6, h7.
+    repeat split; try reflexivity. intros _. lia.
+  - destruct H as (EA & EB & _). exfalso. unfold caseB in EB. rewrite EA in EB. cbn [negb andb] in EB.
+    apply Z.ltb_lt in EB. rewrite RX in EB. lia.
+  - destruct H as (EA & EB & h1 & h2 & h3 & h4 & h5 & h6 & h7 & h8 & h9). rewrite h1, h5, h6, h7.
+    repeat split; try reflexivity. intros _. lia.
+Qed.
+
+Lemma LBI_mrun c a ms : forall s,
+  WFh c s -> LBI a s -> now (mrun c ms s) < a -> a <= now s + ACCEPT_US ->
+  LBI a (mrun c ms s) /\ chg (outs (mrun c ms s)) = chg (outs s) /\ last (mrun c ms s) = last s /\ WFh c (mrun c ms s).
+Proof.
+  induction ms as [|m ms IH]; intros s W HL Hnow Ha; [auto|].
+  rewrite mrun_cons in *.
+  pose proof (mrun_now c ms (mstep c m s)). pose proof (mstep_now c m s).
+  destruct (LBI_mstep c a m s W HL ltac:(lia) Ha) as (a1 & a2 & a3).
+  destruct (IH (mstep c m s) (WFh_mstep c m s W) a1 Hnow ltac:(lia)) as (b1 & b2 & b3 & b4).
+  split; [exact b1|]. split; [congruence|]. split; [congruence|exact b4].
+Qed.
+
+(* ---------- C11_glitch_rejected, form that holds with and without the fix:
+   after a quiet time (old level) any burst of edges that spans less than ACCEPT_US is ignored ---------- *)
+Theorem glitch_idle_thm : forall c l0 J pre qa bu qb,
+  let s0 := mrun c pre (init c l0) in
+  let s1 := mrun c qa s0 in
+  let s2 := mrun c bu s1 in
+  let s3 := mrun c qb s2 in
+  0 <= J -> late s3 <= J ->
+  no_in qa -> now s1 - now s0 > ACCEPT_US + J ->          (* the old level has lasted *)
+  now s2 - now s1 < ACCEPT_US -> lvl s2 = lvl s0 ->        (* burst: any edges, back at the old level *)
+  no_in qb ->                                               (* and it stays there *)
+  chg (outs s3) = chg (outs s1) /\ last s3 = last s1 /\
+  (halted s3 = false -> last s3 = stl c (lvl s0) /\
+     (now s3 - now s2 > ACCEPT_US + J -> dstep s3 = 0)).
+Proof.
+  intros c l0 J pre qa bu qb s0 s1 s2 s3 HJ Hl Hqa Hda Hdb Hlv Hqb.
+  assert (Wh0 : WFh c s0) by (intros H; apply WF_mrun; [apply WF_init|exact H]).
+  assert (Wh1 : WFh c s1) by (intros H; apply WF_mrun; [apply Wh0; eapply mrun_halted_back; exact H|exact H]).
+  pose proof (mrun_late c qb s2) as L2. pose proof (mrun_late c bu s1) as L1. fold s3 in L2. fold s2 in L1.
+  destruct (halted s1) eqn:H1.
+  { (* already halted: nothing moves any more *)
+    assert (F : forall ms s, halted s = true -> chg (outs (mrun c ms s)) = chg (outs s) /\ last (mrun c ms s) = last s /\ halted (mrun c ms s) = true).
+    { induction ms as [|m ms IH]; intros s H; [auto|]. rewrite mrun_cons.
+      destruct (mstep_halted_id c m s H) as (a1&a2&a3&a4&a5). destruct (IH _ (halted_sticky c m s H)) as (b1&b2&b3).
+      rewrite b1, b2, a3, a4. auto. }
+    destruct (F bu s1 H1) as (a1&a2&a3). destruct (F qb s2 a3) as (b1&b2&b3). fold s2 in a1, a2, a3. fold s3 in b1, b2, b3.
+    split; [congruence|]. split; [congruence|]. intros; congruence. }
+  assert (H0 : halted s0 = false) by (eapply mrun_halted_back; exact H1).
+  destruct (quiet_settles c J s0 qa HJ (Wh0 H0) Hqa ltac:(fold s1; lia) Hda H1) as (q1 & q2 & q3 & q4).
+  fold s1 in q1, q2, q3, q4.
+  (* burst *)
+  assert (LB1 : LBI (now s1 + ACCEPT_US) s1) by (intros D; congruence).
+  destruct (LBI_mrun c (now s1 + ACCEPT_US) bu s1 Wh1 LB1 ltac:(fold s2; lia) ltac:(lia)) as (b1 & b2 & b3 & b4).
+  fold s2 in b1, b2, b3, b4.
+  (* quiet again *)
+  assert (HL2 : last s2 = stl c (lvl s2)) by (rewrite b3, q2, Hlv; reflexivity).
+  destruct (NC_mrun c qb s2 Hqb HL2) as (c1 & c2 & c3). fold s3 in c1, c2, c3.
+  assert (E3 : last s3 = last s1) by (rewrite c2, c3, Hlv, q2; reflexivity).
+  split; [congruence|]. split; [exact E3|]. intros H3. split; [rewrite E3, q2; reflexivity|].
+  intros Hdc. assert (H2 : halted s2 = false) by (eapply mrun_halted_back; exact H3).
+  destruct (quiet_settles c J s2 qb HJ (b4 H2) Hqb Hl Hdc H3) as (d1 & _). exact d1.
+Qed.
+
+(* ---------- the repaired code: after ANY edge nothing is notified for MIN_CYCLE_COUNT * CYCLE_US - J ---------- *)
+Definition STABLE_US : Z := MIN_CYCLE_COUNT * CYCLE_US.
+Lemma stable_us : STABLE_US = 100000. Proof. reflexivity. Qed.
+Arguments STABLE_US : simpl never.
+
+Lemma halted_mrun c ms : forall s, halted s = true ->
+  chg (outs (mrun c ms s)) = chg (outs s) /\ last (mrun c ms s) = last s /\ halted (mrun c ms s) = true.
+Proof.
+  induction ms as [|m ms IH]; intros s H; [auto|]. rewrite mrun_cons.
+  destruct (mstep_halted_id c m s H) as (a1&a2&a3&a4&a5). destruct (IH _ (halted_sticky c m s H)) as (b1&b2&b3).
+  split; [congruence|]. split; [congruence|exact b3].
+Qed.
+Lemma WFh_mrun c ms : forall s, WFh c s -> WFh c (mrun c ms s).
+Proof. induction ms as [|m ms IH]; intros s W; [exact W|]. rewrite mrun_cons. apply IH, WFh_mstep, W. Qed.
+
+Lemma isr_fields c x :
+  last (isr c x) = last x /\ outs (isr c x) = outs x /\ lvl (isr c x) = lvl x /\ now (isr c x) = now x /\
+  (dstep x = 0 -> dstep (isr c x) = 1 /\ d_due (isr c x) = now x + CYCLE_US /\ d_on (isr c x) = true) /\
+  (dstep x <> 0 -> rst c = true -> dstep (isr c x) = 1 /\ d_due (isr c x) = d_due x /\ d_on (isr c x) = d_on x).
+Proof.
+  unfold isr, arm_d. destruct (dstep x =? 0) eqn:E; [|destruct (rst c)].
+  - apply Z.eqb_eq in E. destruct x; cbn in *. repeat split; try reflexivity; intros; try lia.
+  - apply Z.eqb_neq in E. destruct x; cbn in *. repeat split; try reflexivity; intros; try lia.
+  - apply Z.eqb_neq in E. repeat split; try reflexivity; intros; try lia; discriminate.
+Qed.
+
+Theorem strict_thm : forall c l0 J pre v w,
+  rst c = true ->
+  let s0 := mrun c pre (init c l0) in
+  let s1 := mstep c (MIn v) s0 in
+  let s2 := mrun c w s1 in
+  lvl s0 <> v -> 0 <= J -> late s2 <= J -> now s2 - now s1 < STABLE_US - J ->
+  chg (outs s2) = chg (outs s0) /\ last s2 = last s0.
+Proof.
+  intros c l0 J pre v w Hr s0 s1 s2 Hv HJ Hl Hd.
+  pose proof CF as [Cy Mi _ _ _ _ _]. pose proof accept_us as Hacc. pose proof stable_us as Hst.
+  assert (Wh0 : WFh c s0) by (intros H; apply WF_mrun; [apply WF_init|exact H]).
+  destruct (halted s0) eqn:H0.
+  { destruct (halted_mrun c (MIn v :: w) s0 H0) as (a1 & a2 & _). rewrite mrun_cons in a1, a2. auto. }
+  destruct (mstep_in_fields c v s0 H0) as (f1 & f2 & f3 & f4 & f5). fold s1 in f1, f2, f3, f4, f5.
+  assert (Wh1 : WFh c s1) by (apply WFh_mstep; exact Wh0).
+  assert (LB1 : LBI (now s1 + STABLE_US - J) s1).
+  { intros _. destruct (mstep_proj c (MIn v) s0) as (e1&e2&e3&e4&e5&e6&e7&e8&e9). cbv zeta in *. fold s1 in e1,e2,e3,e4,e5,e6,e7,e8,e9.
+    assert (E : mact c (MIn v) s0 = isr c (set_lvl v s0)).
+    { unfold mact. rewrite H0. destruct (v =? lvl s0) eqn:E; [apply Z.eqb_eq in E; congruence|reflexivity]. }
+    rewrite E in *. destruct (isr_fields c (set_lvl v s0)) as (i1&i2&i3&i4&i5&i6).
+    assert (X : dstep (set_lvl v s0) = dstep s0 /\ now (set_lvl v s0) = now s0 /\ d_due (set_lvl v s0) = d_due s0 /\ d_on (set_lvl v s0) = d_on s0)
+      by (destruct s0; cbn; auto). destruct X as (x1&x2&x3&x4).
+    destruct (Z.eq_dec (dstep s0) 0) as [D0|Dn].
+    - destruct (i5 ltac:(congruence)) as (j1&j2&j3). rewrite e2, e5, e8, j1, j2, i4, x2. lia.
+    - destruct (i6 ltac:(congruence) Hr) as (j1&j2&j3). rewrite e2, e5, e8, j1, j2, i4, x2, x3.
+      assert (Don : d_on s1 = true) by (rewrite e4, j3, x4; apply (Wh0 H0); exact Dn).
+      pose proof (pend_d_on s1 Don). pose proof (mstep_pend c (MIn v) s0). fold s1 in H1.
+      pose proof (mrun_late c w s1). fold s2 in H2. rewrite e5, j2, x3, e8, i4, x2 in H. lia. }
+  destruct (LBI_mrun c (now s1 + STABLE_US - J) w s1 Wh1 LB1 ltac:(fold s2; lia) ltac:(lia)) as (b1 & b2 & b3 & b4).
+  fold s2 in b2, b3. split; congruence.
+Qed.
+
+(* any number of short excursions, however close together *)
+Inductive glitches (c : cfgT) (J old : Z) : st -> list micro -> Prop :=
+| gl_nil s : glitches c J old s []
+| gl_quiet s q rest : no_in q -> glitches c J old (mrun c q s) rest -> glitches c J old s (q ++ rest)
+| gl_exc s v w rest : v <> old ->
+    now (mrun c w (mstep c (MIn v) s)) - now (mstep c (MIn v) s) < STABLE_US - J ->
+    glitches c J old (mstep c (MIn old) (mrun c w (mstep c (MIn v) s))) rest ->
+    glitches c J old s (MIn v :: w ++ MIn old :: rest).
+
+Lemma excursion_lemma c J s v w :
+  rst c = true -> WFh c s -> halted s = false -> lvl s <> v -> 0 <= J ->
+  let s1 := mstep c (MIn v) s in let s2 := mrun c w s1 in
+  late s2 <= J -> now s2 - now s1 < STABLE_US - J ->
+  chg (outs s2) = chg (outs s) /\ last s2 = last s /\ WFh c s2.
+Proof.
+  intros Hr Wh0 H0 Hv HJ s1 s2 Hl Hd.
+  pose proof CF as [Cy Mi _ _ _ _ _]. pose proof accept_us as Hacc. pose proof stable_us as Hst.
+  destruct (mstep_in_fields c v s H0) as (f1 & f2 & f3 & f4 & f5). fold s1 in f1, f2, f3, f4, f5.
+  assert (Wh1 : WFh c s1) by (apply WFh_mstep; exact Wh0).
+  assert (LB1 : LBI (now s1 + STABLE_US - J) s1).
+  { intros _. destruct (mstep_proj c (MIn v) s) as (e1&e2&e3&e4&e5&e6&e7&e8&e9). cbv zeta in *. fold s1 in e1,e2,e3,e4,e5,e6,e7,e8,e9.
+    assert (E : mact c (MIn v) s = isr c (set_lvl v s)).
+    { unfold mact. rewrite H0. destruct (v =? lvl s) eqn:E; [apply Z.eqb_eq in E; congruence|reflexivity]. }
+    rewrite E in *. destruct (isr_fields c (set_lvl v s)) as (i1&i2&i3&i4&i5&i6).
+    assert (X : dstep (set_lvl v s) = dstep s /\ now (set_lvl v s) = now s /\ d_due (set_lvl v s) = d_due s /\ d_on (set_lvl v s) = d_on s)
+      by (destruct s; cbn; auto). destruct X as (x1&x2&x3&x4).
+    destruct (Z.eq_dec (dstep s) 0) as [D0|Dn].
+    - destruct (i5 ltac:(congruence)) as (j1&j2&j3). rewrite e2, e5, e8, j1, j2, i4, x2. lia.
+    - destruct (i6 ltac:(congruence) Hr) as (j1&j2&j3). rewrite e2, e5, e8, j1, j2, i4, x2, x3.
+      assert (Don : d_on s1 = true) by (rewrite e4, j3, x4; apply (Wh0 H0); exact Dn).
+      pose proof (pend_d_on s1 Don). pose proof (mstep_pend c (MIn v) s). fold s1 in H1.
+      pose proof (mrun_late c w s1). fold s2 in H2. rewrite e5, j2, x3, e8, i4, x2 in H. lia. }
+  destruct (LBI_mrun c (now s1 + STABLE_US - J) w s1 Wh1 LB1 ltac:(fold s2; lia) ltac:(lia)) as (b1 & b2 & b3 & b4).
+  fold s2 in b2, b3, b4. split; [congruence|]. split; [congruence|exact b4].
+Qed.
+
+Theorem glitches_thm : forall c J old s ms,
+  rst c = true -> 0 <= J -> WFh c s -> (halted s = false -> lvl s = old /\ last s = stl c old) ->
+  glitches c J old s ms -> late (mrun c ms s) <= J ->
+  chg (outs (mrun c ms s)) = chg (outs s) /\ last (mrun c ms s) = last s.
+Proof.
+  intros c J old s ms Hr HJ Wh Hinv G. revert Wh Hinv.
+  induction G as [s | s q rest Hq G IH | s v w rest Hv Hd G IH]; intros Wh Hinv Hl.
+  - auto.
+  - rewrite mrun_app in *. destruct (halted s) eqn:H0.
+    { destruct (halted_mrun c q s H0) as (a1 & a2 & a3). destruct (halted_mrun c rest _ a3) as (b1 & b2 & _). split; congruence. }
+    destruct (Hinv eq_refl) as (i1 & i2).
+    destruct (NC_mrun c q s Hq ltac:(congruence)) as (a1 & a2 & a3).
+    destruct (IH (WFh_mrun c q s Wh) ltac:(intros _; split; congruence) Hl) as (b1 & b2).
+    split; [congruence|]. rewrite b2, a2, a3, i1, i2. reflexivity.
+  - change (MIn v :: w ++ MIn old :: rest) with ([MIn v] ++ w ++ [MIn old] ++ rest) in *.
+    rewrite !mrun_app in *. change (mrun c [MIn v] s) with (mstep c (MIn v) s) in *.
+    set (s1 := mstep c (MIn v) s) in *. set (s2 := mrun c w s1) in *.
+    change (mrun c [MIn old] s2) with (mstep c (MIn old) s2) in *. set (s3 := mstep c (MIn old) s2) in *.
+    destruct (halted s) eqn:H0.
+    { destruct (halted_mrun c ([MIn v] ++ w ++ [MIn old] ++ rest) s H0) as (a1 & a2 & _).
+      rewrite !mrun_app in a1, a2. exact (conj a1 a2). }
+    destruct (Hinv eq_refl) as (i1 & i2).
+    pose proof (mrun_late c rest s3) as L3. pose proof (mstep_late c (MIn old) s2) as L2. fold s3 in L2.
+    destruct (excursion_lemma c J s v w Hr Wh H0 ltac:(congruence) HJ ltac:(fold s1 s2; lia) Hd) as (e1 & e2 & e3).
+    fold s1 s2 in e1, e2, e3.
+    assert (Wh3 : WFh c s3) by (apply WFh_mstep; exact e3).
+    destruct (halted s2) eqn:H2.
+    { destruct (halted_mrun c ([MIn old] ++ rest) s2 H2) as (a1 & a2 & _). rewrite mrun_app in a1, a2.
+      change (mrun c [MIn old] s2) with s3 in a1, a2. split; congruence. }
+    destruct (mstep_in_fields c old s2 H2) as (f1 & f2 & f3 & f4 & f5). fold s3 in f1, f2, f3, f4, f5.
+    destruct (IH Wh3 ltac:(intros _; split; congruence) Hl) as (b1 & b2).
+    split; congruence.
+Qed.
+
+(* ---------- the scheduler of the double only composes micro-steps ---------- *)
+Lemma mact_tr c m s : tr (mact c m s) = tr s.
+Proof.
+  destruct (halted s) eqn:Hs; [rewrite mact_halted by assumption; reflexivity|].
+  destruct (is_in m) eqn:Ei.
+  { destruct m; try discriminate. unfold mact. rewrite Hs. destruct (l =? lvl s); [reflexivity|].
+    unfold isr, arm_d. repeat match goal with |- context[if ?b then _ else _] => destruct b end; destruct s; reflexivity. }
+  destruct (micro_eq_deb m) as [->|Hd]; [|apply (f_tr _ _ (mact_frame c m s Ei Hd))].
+  rewrite mact_deb by assumption. destruct (d_on s && _); [|reflexivity].
+  assert (R : tr (rearm_d s) = tr s) by (destruct s; reflexivity).
+  destruct (caseA (rearm_d s)) eqn:EA; [|destruct (caseB (rearm_d s)) eqn:EB].
+  - rewrite deb_cb_A by assumption. rewrite <- R. set (x := rearm_d s). destruct x; reflexivity.
+  - rewrite deb_cb_B by assumption. cbv zeta. rewrite <- R.
+    pose proof (sf_tr _ _ (proj1 (notify_spec c (stl c (lvl (rearm_d s))) (rearm_d s)))) as E.
+    set (y := notify c _ _) in *. destruct (halted y); [exact E|]. rewrite <- E. destruct y; reflexivity.
+  - rewrite deb_cb_C by assumption. rewrite <- R. set (x := rearm_d s). destruct x; reflexivity.
+Qed.
+Lemma tr_mstep c m s : tr (mstep c m s) = m :: tr s.
+Proof. unfold mstep; cbv zeta. rewrite <- (mact_tr c m s). destruct (mact c m s); reflexivity. Qed.
+
+Definition replays (c : cfgT) (l0 : Z) (s : st) : Prop := s = mrun c (rev (tr s)) (init c l0).
+Lemma replays_mstep c l0 m s : replays c l0 s -> replays c l0 (mstep c m s).
+Proof.
+  unfold replays. intros H. rewrite tr_mstep. cbn [rev]. rewrite mrun_app. rewrite <- H. reflexivity.
+Qed.
+Lemma replays_fire_due c l0 fuel e : forall s, replays c l0 s -> replays c l0 (fire_due c fuel e s).
+Proof.
+  induction fuel as [|f IH]; intros s H; cbn [fire_due].
+  - destruct (pick s e); [apply replays_mstep|]; exact H.
+  - destruct (pick s e) as [[[due sq] k]|]; [|exact H].
+    cbv zeta. destruct (halted _); [|apply IH]; repeat apply replays_mstep; exact H.
+Qed.
+Lemma replays_estep c l0 s ev : replays c l0 s -> replays c l0 (estep c s ev).
+Proof.
+  intros H. unfold estep. destruct (halted s); [exact H|].
+  destruct ev; try (apply replays_mstep; exact H); try exact H.
+  cbv zeta. destruct (halted _); [|apply replays_mstep]; apply replays_fire_due; exact H.
+Qed.
+Theorem run_is_mrun : forall c l0 evs, run c l0 evs = mrun c (rev (tr (run c l0 evs))) (init c l0).
+Proof.
+  intros c l0 evs. unfold run, run_from.
+  assert (G : forall evs s, replays c l0 s -> replays c l0 (fold_left (estep c) evs s)).
+  { induction evs0 as [|ev evs0 IH]; intros s H; [exact H|]. cbn. apply IH, replays_estep, H. }
+  apply G. reflexivity.
+Qed.
+
+(* ---------- the code before the fix is refuted: in-phase 1 ms spikes are recognised as a press ---------- *)
+Definition cfg_demo (r : bool) : cfgT :=
+  {| boot := 1; typ := TYPE_MONOSTABLE; flags := FLAG_TRIGGER_ON_PRESS; rel := true; chan := 1; cap := 0; rst := r |}.
+Definition spike : list event := [EIn 1; EAdv 1000; EIn 0; EAdv 19000].
+Definition alias_evs : list event :=
+  [EAdv 700000; EIn 1; EAdv 1000; EIn 0; EAdv 18500] ++ spike ++ spike ++ spike ++ spike ++ spike ++ spike ++ [EAdv 900000].
+Definition is_gpio (o : out) : bool := match o with OGpio _ _ => true | _ => false end.
+Lemma old_code_refuted_thm :
+  (* seven spikes of 1 ms, 7 ms in total at the active level: the unrepaired code toggles the relay ... *)
+  filter is_gpio (outs (run (cfg_demo false) 0 alias_evs)) = [OGpio 820010 1] /\
+  chg (outs (run (cfg_demo false) 0 alias_evs)) = 2%nat /\
+  (* ... the repaired code does not react at all *)
+  filter is_gpio (outs (run (cfg_demo true) 0 alias_evs)) = [] /\
+  chg (outs (run (cfg_demo true) 0 alias_evs)) = 0%nat /\
+  late (run (cfg_demo false) 0 alias_evs) = 0 /\ late (run (cfg_demo true) 0 alias_evs) = 0.
+Proof. vm_compute. repeat split; reflexivity. Qed.
